@@ -14,7 +14,15 @@ from feems.types_for_feems import FEEMSResult
 
 
 def gen_plant_case(rng, idx, kind=None, n=None):
-    """electric | mechanical | hybrid | mech+elec plant with inputs."""
+    """electric | mechanical | hybrid | mech+elec plant with inputs; in 30 % of the cases the components carry the names
+    a user would give ("Genset 1" on every switchboard)."""
+    case = _gen_plant_case(rng, idx, kind, n)
+    if rng.random() < 0.3:
+        plants.relabel(case["spec"])
+    return case
+
+
+def _gen_plant_case(rng, idx, kind=None, n=None):
     if kind is None:
         kind = str(rng.choice(["electric", "electric", "mechanical", "hybrid", "mech_elec"]))
     if kind == "electric":
@@ -36,7 +44,7 @@ def gen_plant_case(rng, idx, kind=None, n=None):
     spec["electric"] = espec["electric"] + ptis
     spec["mechanical"] = mech + [{"kind": "pti_pto_ref", "name": p["name"]} for p in ptis]
     if kind == "hybrid" and not ptis:
-        return gen_plant_case(rng, idx, kind, n)
+        return _gen_plant_case(rng, idx, kind, n)
     ein = E.gen_inputs(rng, spec, n=n, capacity_ok=True)
     min_ = M.gen_inputs(rng, spec, n=ein["n"], engines_ok=True)
     min_["dt"] = ein["dt"]
@@ -56,8 +64,9 @@ def mech_inputs(case):
     return case["inputs"] if case["kind"] == "mechanical" else {"n": case["inputs"]["n"], "dt": case["inputs"]["dt"], "comp": case["inputs"]["mech"]}
 
 
-def run_plant(case, plant=None):
-    """Builds (unless given) the plant, applies the inputs, runs the power balance. Returns plant."""
+def run_plant(case, plant=None, before_balance=None):
+    """Builds (unless given) the plant, applies the inputs, runs the power balance. Returns plant.
+    `before_balance(plant)` runs after the inputs are applied (used to give a second instance of a machine the same inputs)."""
     if plant is None:
         plant = plants.Plant(case["spec"])
     k = case["kind"]
@@ -72,6 +81,8 @@ def run_plant(case, plant=None):
         mi = mech_inputs(case)
         M.apply_inputs(plant, mi)
         # the PTI/PTO's electric input follows from its shaft power (set_power_input_from_output above)
+        if before_balance is not None:
+            before_balance(plant)
         plant.system.do_power_balance_calculation()
     return plant
 
